@@ -105,6 +105,8 @@ struct Interp
          if (anyFilt) for (auto & x : pf) {MessageRef fm = ServerSim::ArchiveWithTag(x.second); (void) m()->AddMessage(PR_NAME_FILTERS, fm() ? fm : GetMessageFromPool(0));}
          return m;
       }
+      if ((k == "routebare")&&(n >= 2)) return GetMessageFromPool((uint32) BARE_BASE + (uint32)((c ? c->idx : 0)*100000) + (uint32)(ToU(A(1)) % 100000));   // no field at all: default route or broadcast
+      if (k == "jettison") {MessageRef m = GetMessageFromPool(PR_COMMAND_JETTISONRESULTS); for (size_t i=1; i<n; i++) (void) m()->AddString(PR_NAME_KEYS, Unesc(A(i)).c_str()); return m;}   // cancels queued PR_RESULT_DATAITEMS results only
       if (k == "routedefault")
       {
          MessageRef m = GetMessageFromPool(PR_COMMAND_SETPARAMETERS);
